@@ -243,3 +243,23 @@ def consensus_stage(o, seed, thorough):
     combos = [(4, 0, [3]), (4, 2, []), (5, 1, [2]), (7, 3, [1, 5])]
     rnd = random_schedules(seed, "c01", combos, 20 if thorough else 4, 300, pbyz=16, ptimeout=10, plag=50, pdup=8)
     vlib.conformance(o, FAMILY, "QBFTTrace", trace_cfg_of, "c02", rnd, tag="qbft_random", replay_of=trace_to_schedule)
+
+
+def quorum_arith(o):
+    """QuorumArith.tla: the intersection lemmas for n = 1..200 as TLC-checked theorems, and the Go float formulas of
+    Definition.Quorum/Faulty bound to the integer ones through the recorded values."""
+    w = vlib.workdir(o.pid)
+    outp = os.path.join(w, "quorum.ndjson")
+    rc, out, _ = vlib.go_exec("c02", "TestQuorumArith", {"VERIF_OUT": outp}, timeout=300)
+    if rc != 0 or not os.path.exists(outp):
+        raise vlib.Infra("TestQuorumArith failed:\n" + out[-2000:])
+    d = vlib.scratch(o.pid, FAMILY, extra_files=[outp])
+    r = vlib.tlc(o.pid, FAMILY, "QuorumArith", "QuorumArith.cfg", workers=1, timeout=300, sdir=d)
+    res = [json.loads(x) for x in vlib.tagged_prints(r, "QA")]
+    if r.error or r.violation or not res:
+        raise vlib.Infra("QuorumArith could not be evaluated: %s\n%s" % (r.summary(), r.out[-1500:]))
+    o.selftests.append({"control": "QuorumArith lemmas (n=1..200) hold as TLC-checked theorems", "rejected_as_required": True})
+    o.extra["quorum_arith"] = res[-1]
+    if not (res[-1]["conforms"] and res[-1]["covered"]):
+        path = vlib.save_replay(o.pid, "QuorumArith", {"property": o.pid, "observed": vlib.read_ndjson(outp), "verdict": res[-1]})
+        o.violations.append((path, "Definition.Quorum()/Faulty() differ from ceil(2n/3)/floor((n-1)/3) for some n in 1..200"))
